@@ -42,9 +42,6 @@ pub fn walk<'tcx>(cx: &Cx<'tcx>) -> J {
     let mut out = Vec::new();
     for (_, tr) in traits {
         let provided: Vec<_> = tcx.provided_trait_methods(tr).collect();
-        if provided.is_empty() {
-            continue;
-        }
         for im in tcx.all_impls(tr) {
             let krate = tcx.crate_name(im.krate).to_string();
             if krate != "blstrs_plus" && krate != "bls12_381_plus" {
@@ -57,6 +54,10 @@ pub fn walk<'tcx>(cx: &Cx<'tcx>) -> J {
             o.set("trait_path", J::s(cx.path(tr)));
             o.set("impl_crate", J::s(krate));
             o.set("self", J::s(cx.ty_s(st)));
+            // `#[derive(..)]`-generated impl? (a derived impl in one backend and a hand-written one in the other is a
+            // place where the same call may mean different things)
+            o.set("derived", J::Bool(tcx.is_automatically_derived(im)));
+            o.set("trait_called", J::Bool(called.iter().any(|(t, _)| *t == tr)));
             let mut ms = J::obj();
             for m in &provided {
                 let name = tcx.item_name(m.def_id).to_string();
